@@ -366,7 +366,7 @@ pub struct Case {
 }
 
 /// any matrix, including checks of degree 0 and 1 and isolated variables
-fn any_matrix() -> impl Strategy<Value = Mat> {
+pub fn any_matrix() -> impl Strategy<Value = Mat> {
     (1usize..=8, 1usize..=12, 0..3u8).prop_flat_map(|(r, n, class)| {
         let hi = match class {
             0 => 3.min(n),
@@ -391,15 +391,10 @@ fn case_strategy(_t: Tier) -> BoxedStrategy<Case> {
 }
 
 fn compare(which: &str, got: &Out, want: &Out, limit: usize, sign_ok: bool) -> Check {
-    let same = if limit == 0 && !sign_ok {
-        // the word of a failure without any iteration is left open by C01; only verdict and count
-        match (got, want) {
-            (Err(a), Err(b)) => a.iterations == b.iterations && a.codeword.len() == b.codeword.len(),
-            _ => false,
-        }
-    } else {
-        got == want
-    };
+    // also for a failure without any iteration: the textbook schedule then returns the hard decisions
+    // (by the arithmetic's own quantiser and decision rule) of the channel LLRs
+    let _ = (limit, sign_ok);
+    let same = got == want;
     if !same {
         return Err(Fail::new("schedule-mismatch", format!("{which}: generic decoder returned {got:?}, the textbook schedule gives {want:?}")));
     }
@@ -806,7 +801,7 @@ pub fn property() -> Property {
         subs: vec![
             Box::new(Sub {
                 name: "reference",
-                rule: "generated (H, LLR, limit): H 1..=8 x 1..=12 with arbitrary rows (degree-0 and degree-1 checks and isolated variables allowed), LLRs from the C01 catalogue, limits {0,1,2,3,6,20,60}, 1..=3 calls on the same decoder object (each compared with the stateless reference); flooding::Decoder<A> and horizontal_layered::Decoder<A> with the checker's exact integer min-sum (wrapping i64) and free hash-term algebra (order-independent, separates routing/initialisation/staleness) against an own edge-map interpreter of the two textbook schedules: identical (verdict, word, iterations); for limit 0 on a non-codeword only verdict and count; non-trivial = >= 2 iterations executed and a variable of degree >= 2; inner = decoder runs compared",
+                rule: "generated (H, LLR, limit): H 1..=8 x 1..=12 with arbitrary rows (degree-0 and degree-1 checks and isolated variables allowed), LLRs from the C01 catalogue, limits {0,1,2,3,6,20,60}, 1..=3 calls on the same decoder object (each compared with the stateless reference); flooding::Decoder<A> and horizontal_layered::Decoder<A> with the checker's exact integer min-sum (wrapping i64) and free hash-term algebra (order-independent, separates routing/initialisation/staleness) against an own edge-map interpreter of the two textbook schedules: identical (verdict, word, iterations), also for limit 0 on a non-codeword (word = the arithmetic's hard decisions of the quantised channel LLRs); non-trivial = >= 2 iterations executed and a variable of degree >= 2; inner = decoder runs compared",
                 cases: |t| t.pick(300_000, 10_000_000),
                 strategy: case_strategy,
                 check: check_reference,
